@@ -185,6 +185,16 @@ pub fn directed_texts() -> Vec<(&'static str, String)> {
         ("po", "inductive-lemma: p.".into()),
         ("po", "inductive-lemma: forall N$i (N$i >= 99999999999999999999 -> p(N$i)).".into()),
         ("po", "definition: p.".into()),
+        // inductive lemmas whose lower bound is not a numeral: a symbolic constant, a general or
+        // integer variable, #inf, an arithmetic term, a placeholder
+        ("po", "inductive-lemma: forall N$i (N$i >= n -> (q(N$i) -> p(N$i))).".into()),
+        ("po", "inductive-lemma: forall N$i X (N$i >= X -> p(N$i)).".into()),
+        ("po", "inductive-lemma: forall N$i M$i (N$i >= M$i -> p(N$i)).".into()),
+        ("po", "inductive-lemma: forall N$i (N$i >= #inf -> p(N$i)).".into()),
+        ("po", "inductive-lemma: forall N$i (N$i >= 1 + 1 -> p(N$i)).".into()),
+        ("po", "inductive-lemma: forall N (N >= 0 -> p(N)).".into()),
+        ("po", "inductive-lemma: forall N$i (N$i > 0 -> p(N$i)).".into()),
+        ("po", "inductive-lemma: forall N$i (0 <= N$i -> p(N$i)).".into()),
         ("lp", "p :- .".into()),
         ("lp", ":- .".into()),
         ("lp", ".".into()),
